@@ -81,6 +81,16 @@ structure Readers where
   /-- the `exclude` list of a `.codelimit.yml` document (`yaml.load`; `[]` without that key) -/
   yamlExclude : Str → List Str
 
+/-- `text.splitlines()` for a text whose only line break is `\n` (files are read with universal
+newlines; the other separators of `splitlines` - form feed, `\x1c`-`\x1e`, `\x85`, `\u2028`, `\u2029` -
+are left to the `Readers` parameter): the pieces between line feeds, ALL of them including empty
+ones, without a last empty piece after a final line feed -/
+def splitLines (s : Str) : List Str :=
+  if s = [] then []
+  else
+    let parts := s.splitOn 10
+    if parts.getLast? = some [] then parts.dropLast else parts
+
 /-- the text of the regular file `name` in the directory `dir` of the tree, if there is one -/
 def fileIn (fs : Node) (dir : List Str) (name : Str) : Option Str :=
   match getNode fs (dir ++ [name]) with
@@ -113,7 +123,8 @@ def withPats (B : Oracles) (pats : List Gi.Pat) : Oracles :=
 
 /-- **`codelimit scan <root>`** (from any working directory): `Configuration.load(path)` and
 `generate_exclude_spec(path)` read the files of the scanned ROOT.  `none`: a line outside the
-modelled pattern classes, or `root` is not a directory of the tree. -/
+modelled pattern classes (blank lines and `#` comments are NOT outside: `Gi.parseAll` skips them,
+as pathspec does), or `root` is not a directory of the tree. -/
 def scanCmd (B : Oracles) (R : Readers) (fs : Node) (opts : List Str) (root : List Str) : Option ScanOut :=
   match userPatsAt R fs opts root, getNode fs root with
   | some pats, some (.dir n ch) => some (scanPath (withPats B pats) (.dir n ch))
